@@ -59,6 +59,7 @@ def dispatch (req : Sexp) : Sexp :=
   | .list (.atom "cli-kill" :: args) => Driver.Cli.handleKill args
   | .list (.atom "build" :: args) => Driver.Ir.handleBuild args
   | .list (.atom "cfgcheck" :: args) => Driver.Ir.handleCfgCheck args
+  | .list (.atom "cfgcheck-cxx" :: args) => Driver.Ir.handleCfgCheckCxx args
   | .list (.atom "passes" :: args) => Driver.Passes.handle args
   | .list (.atom "c16-inv" :: args) => Driver.CxxEmit.handleInventory args
   | .list (.atom "c16-lit" :: args) => Driver.CxxEmit.handleLit args
